@@ -17,9 +17,19 @@ pub enum Mode {
     /// each operation in its own single-threaded sync driver process; the schedule decides,
     /// at every filesystem system call, which held process continues:
     /// `first` = who runs first, `switches` = sorted (event position, switch-to choice)
-    Scheduled { first: u8, switches: Vec<(u16, u8)> },
+    /// `aged`: at every switch, while everybody is held, all files of the cache are back-dated by
+    /// two days (whatever somebody treats as "stale" then includes the held operation's files)
+    Scheduled {
+        first: u8,
+        switches: Vec<(u16, u8)>,
+        #[serde(default)]
+        aged: bool,
+    },
     /// uncontrolled: one thread per operation in this process (any flavour), started together
     Stress { rounds: u8 },
+    /// the operations (async flavour) are futures joined in ONE task of this process: they
+    /// interleave on one thread wherever the library awaits
+    Joined,
 }
 
 #[derive(Clone, Debug, Serialize, Deserialize)]
@@ -267,7 +277,8 @@ impl Engine for C07 {
          keys, addresses and bucket files. Scheduled mode: each operation runs in its own single-threaded sync driver process under one ptrace supervisor that holds every \
          process before every filesystem system call (reads and writes); the generated schedule (who starts, and a sorted list of preemption points) decides which held process \
          continues — all schedules with <= p preemptions are enumerated for the fixed operation sets, random schedules beyond. Stress mode: one thread per operation in-process, any \
-         flavour, started together (uncontrolled). Oracle: some permutation of the operations, replayed sequentially on the reference model from the initial state, yields every \
+         flavour, started together (uncontrolled). Joined mode: the operations (async flavour) are futures joined in one task, interleaving on one thread wherever the library awaits. \
+         Aged schedules: at the preemption every file of the cache is back-dated by two days. Oracle: some permutation of the operations, replayed sequentially on the reference model from the initial state, yields every \
          observed result and the observed final state (lookups and reads of all keys, exists/read_hash of all addresses, listing); plus the splice detector: every bucket decodes to \
          valid records only and as many as inserts/removals succeeded. Non-trivial = >=1 preemption inside an operation (scheduled) / >=2 operations sharing a path (stress); \
          distinct = distinct (operation set, schedule)"
@@ -285,15 +296,39 @@ impl Engine for C07 {
         let mut out = Vec::new();
         let mut sets = op_sets();
         sets.extend(long_history_sets());
+        // futures of one task: more shapes than the scheduled sets (cheap, in-process)
+        for (init, ops) in [
+            (vec![], vec![wr(Some(0), 0), wr(Some(1), 1)]),
+            (vec![], vec![wr(Some(0), 1), wr(Some(1), 1), wr(Some(0), 2)]),
+            (vec![], vec![wr_stream(0, 0), wr_stream(1, 1), wr(None, 2)]),
+            (vec![], vec![wr(Some(0), 0), wr(Some(1), 1), wr(Some(0), 1), wr(Some(1), 0)]),
+            (vec![wr(Some(0), 2), wr(Some(1), 2)], vec![wr(Some(0), 0), wr(Some(1), 1)]),
+            (vec![wr(Some(0), 2), wr(Some(1), 2)], vec![Op::Remove { key: 0 }, wr(Some(1), 1), Op::Meta { key: 1 }]),
+            (vec![wr(Some(0), 2), wr(Some(1), 1)], vec![Op::Remove { key: 0 }, Op::Remove { key: 1 }, Op::List]),
+            (vec![wr(Some(0), 0)], vec![wr_big_record(0, 1), wr_big_record(1, 2), Op::Read { key: 0 }]),
+            (vec![wr(Some(0), 0), wr(Some(1), 1)], vec![Op::Read { key: 0 }, Op::Read { key: 1 }, Op::ReadHash { addr: a(0) }, wr(Some(0), 1)]),
+        ] {
+            for rep in 0..3 {
+                let mut ops: Vec<Op> = ops.clone();
+                let by = rep % ops.len();
+                ops.rotate_left(by);
+                out.push(Case { keys: keys.clone(), blobs: blobs.clone(), init: sync_steps(&init), ops: ops.into_iter().map(|op| Step { op, fl: Fl::Async }).collect(), mode: Mode::Joined });
+            }
+        }
         for (init, ops) in sets {
             let n = ops.len();
-            let mk = |first: u8, switches: Vec<(u16, u8)>| Case {
+            let mk_aged = |first: u8, switches: Vec<(u16, u8)>, aged: bool| Case {
                 keys: keys.clone(),
                 blobs: blobs.clone(),
                 init: sync_steps(&init),
                 ops: sync_steps(&ops),
-                mode: Mode::Scheduled { first, switches },
+                mode: Mode::Scheduled { first, switches, aged },
             };
+            let mk = |first: u8, switches: Vec<(u16, u8)>| mk_aged(first, switches, false);
+            // the same operations as futures of one task
+            if init.len() < 100 {
+                out.push(Case { keys: keys.clone(), blobs: blobs.clone(), init: sync_steps(&init), ops: ops.iter().map(|o| Step { op: o.clone(), fl: Fl::Async }).collect(), mode: Mode::Joined });
+            }
             for first in 0..n as u8 {
                 out.push(mk(first, vec![]));
                 // one preemption at every position
@@ -301,6 +336,12 @@ impl Engine for C07 {
                 for pos in 0..maxpos {
                     for who in 0..(n as u8 - 1) {
                         out.push(mk(first, vec![(pos, who)]));
+                    }
+                }
+                // ... and with everything in the cache looking two days old at the preemption
+                if n == 2 && init.len() < 100 {
+                    for pos in 0..tier.pick(30, 60) {
+                        out.push(mk_aged(first, vec![(pos, 0)], true));
                     }
                 }
                 if tier == Tier::Thorough && n == 2 {
@@ -330,12 +371,13 @@ impl Engine for C07 {
             vec(prop_oneof![12 => rand_op(), 1 => Just(Op::TmpElsewhere)], 0..3),
             vec((rand_op(), crate::gen::fl()), 2..4),
             prop_oneof![
-                3 => (0u8..3, vec((0u16..80, 0u8..2), 0..5)).prop_map(|(first, mut sw)| {
+                3 => (0u8..3, vec((0u16..80, 0u8..2), 0..5), prop::bool::weighted(0.25)).prop_map(|(first, mut sw, aged)| {
                     sw.sort();
                     sw.dedup_by_key(|x| x.0);
-                    Mode::Scheduled { first, switches: sw }
+                    Mode::Scheduled { first, switches: sw, aged }
                 }),
                 2 => (1u8..4).prop_map(|rounds| Mode::Stress { rounds }),
+                1 => Just(Mode::Joined),
             ],
         )
             .prop_map(move |(init, ops, mode)| {
@@ -344,7 +386,7 @@ impl Engine for C07 {
                     keys: keys.clone(),
                     blobs: blobs.clone(),
                     init: init.into_iter().filter(|o| matches!(o, Op::Write(_) | Op::Remove { .. } | Op::TmpElsewhere)).map(|op| Step { op, fl: Fl::Sync }).collect(),
-                    ops: ops.into_iter().map(|(op, fl)| Step { op, fl: if scheduled { Fl::Sync } else { fl } }).collect(),
+                    ops: ops.into_iter().map(|(op, fl)| Step { op, fl: if scheduled { Fl::Sync } else if matches!(mode, Mode::Joined) { Fl::Async } else { fl } }).collect(),
                     mode,
                 }
             })
@@ -380,7 +422,12 @@ impl Engine for C07 {
             let mut preempted_inside = false;
             let mut trace: Vec<String> = Vec::new();
             match &c.mode {
-                Mode::Scheduled { first, switches } => {
+                Mode::Joined => {
+                    for (i, r) in crate::exec::run_steps_joined(&ctx, &c.ops).into_iter().enumerate() {
+                        outs[i] = Some((r.out, r.t0, r.t1));
+                    }
+                }
+                Mode::Scheduled { first, switches, aged } => {
                     let prog_file = env.scratch.root.join("prog.json");
                     std::fs::write(&prog_file, serde_json::to_string(&prog).unwrap()).map_err(|e| format!("INFRA: {e}"))?;
                     let mut cmds = Vec::new();
@@ -431,6 +478,9 @@ impl Engine for C07 {
                                             preempted_inside = true;
                                         }
                                         choice = to;
+                                        if *aged {
+                                            run_step(&ctx, &Step { op: Op::AgeCache { days: 2 }, fl: Fl::Sync });
+                                        }
                                     }
                                 }
                                 qpos = qpos.saturating_add(1);
@@ -520,12 +570,16 @@ impl Engine for C07 {
             basic::content_invariant(&ctx, &Model::new(), false).map_err(|e| format!("{e} — {}", describe()))?;
             let nt = match &c.mode {
                 Mode::Scheduled { .. } => preempted_inside,
-                Mode::Stress { .. } => n >= 2,
+                Mode::Stress { .. } | Mode::Joined => n >= 2,
             };
             st.class(match &c.mode {
                 Mode::Scheduled { .. } => "scheduled_run",
                 Mode::Stress { .. } => "stress_run",
+                Mode::Joined => "futures_joined_in_one_task",
             });
+            if matches!(c.mode, Mode::Scheduled { aged: true, .. }) && preempted_inside {
+                st.class("cache_aged_at_the_preemption");
+            }
             if preempted_inside {
                 st.class("preempted_inside_an_operation");
             }
